@@ -102,6 +102,15 @@ theorem DStep.of_same {s s' : St} (h1 : s'.trace = s.trace) (h2 : s'.data = s.da
    fun h d hd => by rw [h2]; exact h d (by rw [← h5]; exact hd), fun d h => by rw [h2] at h; exact h⟩
 
 /-- An emitted event that is neither a send nor a drop. -/
+theorem canaryEv_ne_send (s : St) (e pid : Nat) : canaryEv s e ≠ Ev.send pid := by
+  unfold canaryEv; split <;> (intro h; cases h)
+theorem canaryEv_ne_drop (s : St) (e pid : Nat) : canaryEv s e ≠ Ev.dropPayload pid := by
+  unfold canaryEv; split <;> (intro h; cases h)
+@[simp] theorem canaryEv_beq_send (s : St) (e pid : Nat) : (canaryEv s e == Ev.send pid) = false := by
+  simp [canaryEv_ne_send]
+@[simp] theorem canaryEv_beq_drop (s : St) (e pid : Nat) : (canaryEv s e == Ev.dropPayload pid) = false := by
+  simp [canaryEv_ne_drop]
+
 theorem DStep.emit_other (s : St) (e : Ev) (h1 : ∀ pid, e ≠ Ev.send pid) (h2 : ∀ pid, e ≠ Ev.dropPayload pid) : DStep s (s.emit e) :=
   ⟨fun pid => by rw [nS_emit]; simp [h1 pid],
    fun pid => by rw [nD_emit, dataP_of_eq (s := s) (s' := s.emit e) pid rfl rfl]; simp [h2 pid], rfl, rfl, rfl, id, fun _ h => h⟩
@@ -153,7 +162,7 @@ theorem dstep_killData (s : St) (e : Nat) (hold : DataOld s) : DStep s (killData
 theorem dstep_kill (s : St) (e : Nat) (hold : DataOld s) : DStep s (kill s e) := by
   have h0 : DStep s (killCanary s e) := by
     unfold killCanary; split
-    · exact DStep.emit_other s _ (fun _ h => by cases h) (fun _ h => by cases h)
+    · exact DStep.emit_other s _ (fun pid => canaryEv_ne_send s e pid) (fun pid => canaryEv_ne_drop s e pid)
     · exact DStep.refl s
   have h1 : DStep (killCanary s e) (killTracker (killComps (killReactors (killStorage (killCanary s e) e) e) e) e) :=
     DStep.of_same (by simp) (by simp) (by simp) (by simp) (by simp)
